@@ -254,6 +254,15 @@ def make_factory(cfg):
             elif o == "crash":
                 x = L["Crash"]()
                 ctx.crashers = getattr(ctx, "crashers", []) + [x]
+            elif o == "cmd":
+                # the -C observer: a shell command per detection (here: append the size of the detection's file to a log)
+                import tempfile
+
+                log = os.path.join(ctx.dir, "cmd%d.log" % len(getattr(ctx, "cmdlogs", [])))
+                ctx.cmdlogs = getattr(ctx, "cmdlogs", []) + [log]
+                ctx.old_tempdir = getattr(ctx, "old_tempdir", tempfile.tempdir)
+                tempfile.tempdir = ctx.dir
+                x = w.CommandLineWorker("wc -c < {file} >> %s" % log)
             elif o == "play":
                 pl = FakePlayer()
                 x = w.PlayerWorker(pl)
@@ -282,6 +291,13 @@ def make_factory(cfg):
                 raise ValueError(o)
             obs.append(x)
         ctx.obs = obs
+        if cfg.get("fd_headroom"):
+            # few spare file descriptors, as in a long-running service: whoever leaks one per detection runs out
+            import resource
+
+            ctx.old_nofile = resource.getrlimit(resource.RLIMIT_NOFILE)
+            want = len(os.listdir("/proc/self/fd")) + cfg["fd_headroom"]
+            resource.setrlimit(resource.RLIMIT_NOFILE, (min(want, ctx.old_nofile[0]), ctx.old_nofile[1]))
         logger = None
         if cfg.get("logger"):
             import logging
@@ -475,6 +491,16 @@ def _restore_stdout(ctx):
 
 def _cleanup1(ctx):
     _restore_stdout(ctx)
+    if getattr(ctx, "old_nofile", None) is not None:
+        import resource
+
+        resource.setrlimit(resource.RLIMIT_NOFILE, ctx.old_nofile)
+        ctx.old_nofile = None
+    if hasattr(ctx, "old_tempdir"):
+        import tempfile
+
+        tempfile.tempdir = ctx.old_tempdir
+        del ctx.old_tempdir
     # close whatever an aborted execution left open, then drop the files
     # (their __del__ drains the inbox and flushes: leave it nothing to do)
     for x in [ctx.saver] + ctx.joiners:
@@ -578,6 +604,14 @@ def check(ex, ctx):
         if r.log != want:
             return "observer #%d processed ids %s, split() of %s gives ids %s (or data/start differ)" % (
                 n, _short([x[0] for x in r.log]), what, _short([x[0] for x in want]))
+    for n, log in enumerate(getattr(ctx, "cmdlogs", ())):
+        try:
+            sizes = [int(x) for x in open(log).read().split()] if os.path.exists(log) else []
+        except ValueError:
+            sizes = "unreadable"
+        if sizes != [44 + len(d) for i, d, s in want]:
+            return "the command observer #%d ran for %s detections %s, split() of %s gives %d" % (
+                n, len(sizes) if isinstance(sizes, list) else "?", _short(sizes), what, len(want))
     for n, pl in enumerate(getattr(ctx, "players", ())):
         if pl.played != [d for i, d, s in want]:
             return "player #%d played %d detections %r, split() of %s gives %d" % (
@@ -863,6 +897,9 @@ def plan(prop, tier):
         # directed starvation schedules on a long stream (300 detections): capacity effects
         tasks.append((dict(kind="run", pattern="A" * 300, observers=["rec", "print"], split="s2"), 10 ** 6, 0, "directed", None, None))
         tasks.append((dict(kind="run", pattern="A" * 150, observers=["rec", "rec", "print"], split="s2"), 10 ** 6, 0, "directed", None, None))
+        # the command observer (-C), with few spare file descriptors, on 150 detections; and under all interleavings on a short stream
+        tasks.append((dict(kind="run", pattern="A" * 150, observers=["cmd", "rec"], split="s2", fd_headroom=60), 10 ** 6, 0, "directed", None, None))
+        tasks.append((dict(kind="run", pattern="AaA", observers=["cmd", "rec"], split="s0"), 0, 0, "sync", None, None))
         # an observer that died on its first message must not hold up the others, however many detections follow
         tasks.append((dict(kind="run", pattern="A" * 300, observers=["crash", "rec", "print"], split="s2"), 10 ** 6, 0, "directed", None, None))
         tasks.append((dict(kind="run", pattern="AAAA", observers=["crash", "rec"], split="s2"), 1, 0, "sync", None, None))
